@@ -24,8 +24,10 @@ from concurrent.futures import ThreadPoolExecutor
 VERIF = os.path.dirname(os.path.dirname(os.path.abspath(__file__)))
 SPEC = os.path.join(VERIF, "spec")
 HARNESS = os.environ.get("VERIF_HARNESS") or os.path.join(VERIF, "harness")
-EVIDENCE = os.path.join(VERIF, "evidence")
-REPLAY = os.path.join(VERIF, "replay")
+# mutation-testing runs (VERIF_HARNESS pointing at a scratch copy of jj) must not overwrite the
+# evidence of the real tree: they set VERIF_OUT_DIR
+EVIDENCE = os.path.join(os.environ.get("VERIF_OUT_DIR") or VERIF, "evidence")
+REPLAY = os.path.join(os.environ.get("VERIF_OUT_DIR") or VERIF, "replay")
 KNOWN = os.path.join(VERIF, "known-findings.txt")
 TLA_CP = "/opt/veriftools/tla/tla2tools.jar:/opt/veriftools/tla/CommunityModules-deps.jar"
 NCPU = os.cpu_count() or 4
